@@ -221,8 +221,15 @@ def history_random(seed, tier):
                 steps.append({'op': rnd.choice(['add', 'sub']), 'rhs': _script_of(rnd.choice(H_ARITH)), 'aff': noaff})
             else:
                 steps.append({'op': 'eliminate', 'rhs': [], 'aff': noaff})
-        scripts.append({'fam': 'afftree', 'k': 2, 'q': 1, 'mode': 'history', 'lhs': _script_of(_rand_tree(rnd, 2)), 'steps': steps,
-                        'faults': [], 'all': True})
+        sc = {'fam': 'afftree', 'k': 2, 'q': 1, 'mode': 'history', 'lhs': _script_of(_rand_tree(rnd, 2)), 'steps': steps, 'faults': [], 'all': True}
+        if rnd.random() < 0.3:
+            # start from the from_poly constructor (with / without else-branch) instead of a hand-built tree
+            rows = rnd.sample([([1], 1), ([-1], 0), ([1], -1), ([0], 1), ([-1], -2)], rnd.choice([1, 2]))
+            sc['schema'] = {'name': 'from_poly', 'dim': 1, 'row': 0, 'q': 1,
+                            'poly': {'m': [r[0] for r in rows], 'b': [r[1] for r in rows], 'q': 1, 'n': 1},
+                            't': H_TERM12[0], 'hasf': rnd.random() < 0.5, 'f': H_TERM12[1]}
+            sc['lhs'] = [{'op': 'from_aff', 'p': 0, 'l': 0, 'a': H_TERM12[0]}, {'op': 'from_aff', 'p': 0, 'l': 0, 'a': H_TERM12[0]}]
+        scripts.append(sc)
     return scripts
 
 
